@@ -447,6 +447,11 @@ func (w *world) do(e event) {
 		w.reg[r.cid] = e.k
 		r.phase = "live"
 		r.busy, r.qlen = false, 0
+		// SyncChain now sends what was stored since its snapshot / last scan read
+		if n := len(r.winRounds); n > 0 {
+			r.busy, r.qlen = true, n-1
+			w.waitStable(r)
+		}
 	}
 }
 
@@ -556,6 +561,7 @@ func randomScenario(rng *rand.Rand, windowPuts bool) scenario {
 		pending bool
 		q       int
 		busy    bool
+		win     int // appends while waiting for AddCallback (memdb view)
 	}
 	var s []event
 	var st []*sh
@@ -609,6 +615,9 @@ func randomScenario(rng *rand.Rand, windowPuts bool) scenario {
 			head++
 			nput++
 			for k, t := range st {
+				if t.phase == "wait" {
+					t.win++
+				}
 				if t.phase == "live" {
 					if kk, ok := reg[t.cid]; ok && kk == k {
 						if t.busy {
@@ -641,6 +650,9 @@ func randomScenario(rng *rand.Rand, windowPuts bool) scenario {
 			}
 			reg[t.cid] = k
 			t.phase, t.busy, t.q = "live", false, 0
+			if t.win > 0 {
+				t.busy, t.q = true, t.win-1
+			}
 			s = append(s, event{kind: evRegister, k: k})
 		default:
 			var cand []int
